@@ -1,3 +1,74 @@
-From Darr Require Import Base RaggedModel.
-Theorem C04_placeholder : True. Proof. exact I. Qed.
-Print Assumptions C04_placeholder.
+(* C04 -- RaggedArray histories equal a list-of-arrays model and persist. *)
+From Coq Require Import ZArith List Bool.
+From Darr Require Import Base ArrayModel RaggedModel Spec Gen_tables
+     Proofs.ArrayRefine Proofs.RaggedBase Proofs.RaggedRefine Proofs.RaggedProps.
+Import ListNotations.
+Open Scope Z_scope.
+
+(* creation (create_raggedarray = no subarrays, asraggedarray = any list of subarrays,
+   any atom, dtype, index type, metadata) yields a state related to the model *)
+Theorem C04_created : forall g, wf_srag g ->
+  exists w, rcreate (g_nt g) (g_bo g) (g_atom g) (g_ity g) (g_subs g) (g_mode g) (g_meta g) = Ok w /\
+            RRel w g.
+Proof. exact rcreate_rel. Qed.
+Print Assumptions C04_created.
+
+(* every history of append / iterappend / truncate / mode change / reopen / metadata:
+   the outcome of each step and the resulting state are the model's *)
+Theorem C04_refines : forall os w g,
+  RRel w g -> wf_rops g os ->
+  rrun_outs w os = rspec_outs g os /\ RRel (rrun w os) (rspec_run g os).
+Proof. exact rrun_refines. Qed.
+Print Assumptions C04_refines.
+
+(* ra[k]: for -len <= k < len exactly subarray k of the model (negative k from the end),
+   IndexError outside, TypeError for a non-integer; the same through a fresh handle,
+   which is related to the same model state *)
+Theorem C04_getitem : forall w g, RRel w g ->
+  rgetitem (fst w) (snd w) None = Err TypeError /\
+  forall k, rgetitem (fst w) (snd w) (Some k) =
+            match g_getitem g k with Some sub => Ok (concat sub) | None => Err IndexError end.
+Proof. exact rgetitem_spec. Qed.
+Print Assumptions C04_getitem.
+
+Theorem C04_fresh_agrees : forall w g m, RRel w g ->
+  exists h', ropen (snd w) m = Ok h' /\ RRel (h', snd w) (g_with_mode g m).
+Proof. exact rfresh_agrees. Qed.
+Print Assumptions C04_fresh_agrees.
+
+(* the requested index type is the one stored (part of RRel: the indices array is
+   related to si_of g whose type is g_ity g), for the 7 documented types -- the list
+   the code checks is the GENERATED one *)
+Theorem C04_index_types :
+  supportedindextypes = map numtype_name [Int8; UInt8; Int16; UInt16; Int32; UInt32; Int64] /\
+  forall t, In t [Int8; UInt8; Int16; UInt16; Int32; UInt32; Int64] -> index_type t = true.
+Proof. split; [vm_compute; reflexivity|]. intros t H. cbn in H. intuition; subst; reflexivity. Qed.
+Print Assumptions C04_index_types.
+
+Theorem C04_indextype_stored : forall w g, RRel w g ->
+  h_nt (rh_i (fst w)) = g_ity g /\
+  exists sh, a_descr (r_indices (snd w)) = Val (mkDescr (g_ity g) Little sh OrdC).
+Proof.
+  intros w g (_ & HI & _). destruct HI as (_ & Hds & _ & _ & (_ & Hn & _) & _).
+  split; [exact Hn|]. eexists. exact Hds.
+Qed.
+Print Assumptions C04_indextype_stored.
+
+(* non-vacuity: [[1,2],[]] (int8 values, uint8 indices), truncate to 1 (removes only an
+   empty subarray), then appends after truncating to 0 *)
+Definition ex_g : srag := mkSrag Int8 Little [] UInt8 [[[1];[2]]; []] RW false.
+Example C04_example :
+  wf_srag ex_g /\
+  match rcreate Int8 Little [] UInt8 (g_subs ex_g) RW false with
+  | Ok w =>
+      let os := [ROpTruncate (Some 1); ROpTruncate (Some 0); ROpIterAppend [RGood [] [[7]]; RGood [] []];
+                 ROpIterAppend [RGood [2] [[9;9]]]] in
+      wf_rops ex_g os /\ rrun_outs w os = [true; true; true; false] /\
+      a_data (r_values (snd (rrun w os))) = Some [7] /\
+      a_data (r_indices (snd (rrun w os))) = Some [0;1;1;1] /\
+      rgetitem (fst (rrun w os)) (snd (rrun w os)) (Some (-1)) = Ok []
+  | Err _ => False
+  end.
+Proof.
+  unfold wf_srag. cbn. repeat split; repeat constructor; try discriminate; try (vm_compute; discriminate).
+Qed.
